@@ -14,6 +14,7 @@ package rtprtcp
 //@   ensures [C12.hdr.b0]  out[0] == h.CsrcCount | h.Extension<<4 | h.Padding<<5 | h.Version<<6
 //@   ensures [C12.hdr.b1]  out[1] == h.PacketType | h.Mark<<7
 //@   ensures [C12.hdr.seq] be16(out, 2) == h.Seq && be32(out, 4) == h.Timestamp && be32(out, 8) == h.Ssrc
+//@   ensures [C12.hdr.frame] forall i in [12, len(out)) :: out[i] == old(out[i])
 //@ end
 
 //@ func ParseRtpHeader
@@ -21,11 +22,12 @@ package rtprtcp
 //@   loop 1 invariant 12 <= offset && offset == 12 + 4*int(i) && i <= h.CsrcCount && len(h.Csrc) == int(h.CsrcCount) && h.CsrcCount <= 15
 //@   loop 1 decreases int(h.CsrcCount) - int(i)
 //@   ensures [C12.parse.short] len(b) < 12 ==> err != nil
-//@   ensures [C12.parse.ok]    len(b) >= 13 && b[0]&0x1F == 0 ==> err == nil
+//@   ensures [C12.parse.ok]    len(b) >= 13 && b[0]&0x1F == 0 && (b[0]>>5&1 == 0 || int(b[len(b)-1]) <= len(b)-12) ==> err == nil
 //@   ensures [C12.parse.fix]   err == nil ==> h.Version == b[0]>>6 && h.Padding == b[0]>>5&1 && h.Extension == b[0]>>4&1 && h.CsrcCount == b[0]&0xF
 //@                             && h.Mark == b[1]>>7 && h.PacketType == b[1]&0x7F && h.Seq == be16(b, 2) && h.Timestamp == be32(b, 4) && h.Ssrc == be32(b, 8)
 //@   ensures [C12.parse.off]   err == nil && b[0]&0x1F == 0 ==> h.payloadOffset == 12
 //@   ensures [C13.parse.bounds] err == nil ==> 12 <= h.payloadOffset && int(h.payloadOffset) < len(b)
+//@   ensures [C13.parse.padding] err == nil ==> 0 <= h.paddingLength && h.paddingLength <= len(b) - int(h.payloadOffset) && (h.Padding == 0 ==> h.paddingLength == 0)
 //@ end
 
 // Ghost lemma: a header without CSRC list and extension survives PackTo + ParseRtpHeader.
@@ -37,7 +39,7 @@ func verifLemmaRtpHeaderRoundTrip(h RtpHeader, buf []byte) (RtpHeader, error) {
 //@ func verifLemmaRtpHeaderRoundTrip
 //@   props C12
 //@   modular
-//@   requires len(buf) >= 13 && h.Version <= 3 && h.Padding <= 1 && h.Extension == 0 && h.CsrcCount == 0 && h.Mark <= 1 && h.PacketType <= 127
+//@   requires len(buf) >= 13 && h.Version <= 3 && h.Padding == 0 && h.Extension == 0 && h.CsrcCount == 0 && h.Mark <= 1 && h.PacketType <= 127
 //@   ensures [C12.hdr.roundtrip] result1 == nil && result0.Version == h.Version && result0.Padding == h.Padding && result0.Mark == h.Mark && result0.PacketType == h.PacketType
 //@                               && result0.Seq == h.Seq && result0.Timestamp == h.Timestamp && result0.Ssrc == h.Ssrc && result0.payloadOffset == 12
 //@ end
